@@ -72,7 +72,7 @@ P = {
   ref='6 C11'),
  'C12': dict(
   cat='proof', tech='ownership discipline over the scheduler models + ThreadSanitizer campaign',
-  text='race_free / owner_unique / guarded_under_lock / unlocked_phase_private over annotated footprints of every section of SchedC, the copy pipeline and SchedD (incl. input buffers are not freed while a job is attached); ThreadSanitizer builds of the whole program run the compression, decompression and -cdf campaigns with perturbation seeds as validation of the footprints against the code.',
+  text='race_free / owner_unique / guarded_under_lock / unlocked_phase_private over annotated footprints of every section of SchedC, the copy pipeline and SchedD (incl. input buffers are not freed while a job is attached); step_annotated / expand_step_annotated tie both annotations to the models (every transition lies in a section in progress and every shared variable it changes is written in that footprint); ThreadSanitizer builds of the whole program run the compression, decompression and -cdf campaigns with perturbation seeds as validation of the footprints against the code.',
   note=TB + 'Partial: the C memory model is not formalised; TSan sees only executed interleavings.',
   ref='6 C12'),
  'C13': dict(
